@@ -86,8 +86,25 @@ MBEATS_A = {"6/8": 3, "9/8": 1, "12/8": 2, "4/4": 2, "3/4": 1, "2/2": 1, "5/8": 
 MBEATS_B = {"6/8": 1, "9/8": 3, "12/8": 4, "4/4": 4, "3/4": 3, "2/2": 2, "5/8": 5, "7/8": 7, "3/8": 1, "2/4": 2, "5/4": 5, "6/4": 2, "3/2": 3}
 
 
-def apply_beats(part, variant):
+def apply_beats(part, variant, m=0):
+    import partitura.score as S
+
     try:
+        if variant in (4, 5):
+            # a time signature is added at (removed from) the start of a measure, where notes and the barline already
+            # stand: a documented in-place edit that creates or removes no time point
+            ms_ = sorted(part.iter_all(S.Measure), key=lambda x: x.start.t)
+            if not ms_:
+                return "no-measure"
+            t_ = ms_[m % len(ms_)].start.t
+            if variant == 4:
+                part.add(S.TimeSignature(5, 8), t_)
+            else:
+                here = list(part.iter_all(S.TimeSignature, start=t_, end=t_ + 1))
+                if not here:
+                    return "none-there"
+                part.remove(here[-1])
+            return "ok"
         if variant == 0:
             part.use_notated_beat()
         elif variant == 1:
@@ -127,7 +144,7 @@ def _gen_atomic(o, nparts, has_perf, cfg):
     elif k == "estimate":
         op.update(target="part%d" % o.randrange(nparts), what=o.choice(("spelling", "voices", "key")))
     elif k == "set_beats":
-        op.update(target="part%d" % o.randrange(nparts), variant=o.randrange(4))
+        op.update(target="part%d" % o.randrange(nparts), variant=o.randrange(6), m=o.randrange(0, 6))
     elif k == "transpose":
         op.update(target=tgt, interval=o.randrange(len(INTERVALS)))
     elif k == "len_getitem":
@@ -767,8 +784,8 @@ def _execute_in(case, res, fs):
         if key not in state["fresh"]:
             fw = World(case, res, simfs=fs)
             for pi, hist in sorted(state["beats"].items()):
-                for v in hist:
-                    apply_beats(fw.score.parts[pi], v)
+                for v, m_ in hist:
+                    apply_beats(fw.score.parts[pi], v, m_)
             for has, p in zip(segs, fw.score.parts):
                 if has:
                     w.S.add_segments(p)
@@ -780,8 +797,8 @@ def _execute_in(case, res, fs):
         name = op["k"] + (":auto" if op.get("auto_unfold") else "")
         if op["k"] == "set_beats":
             pi = int(op["target"][4:]) % len(parts)
-            out = apply_beats(parts[pi], op["variant"])
-            state["beats"].setdefault(pi, []).append(op["variant"])
+            out = apply_beats(parts[pi], op["variant"], op.get("m", 0))
+            state["beats"].setdefault(pi, []).append((op["variant"], op.get("m", 0)))
             state["snap"] = w.snap()
             res.probe("beat_setting_changed_between_views")
             res.log.add(cname, name, {"op": op, "result": out})
